@@ -59,6 +59,7 @@ pub fn int_range(ty: u8) -> (i128, i128) {
         6 => (u64::MIN as i128, u64::MAX as i128),
         7 => (i64::MIN as i128, i64::MAX as i128),
         // i128 operands are restricted to the documented Decimal range
+        // (arb_int_full() adds i128::MIN for the properties whose checks accept it)
         _ => (-MAXC, MAXC),
     }
 }
@@ -420,6 +421,13 @@ pub fn arb_int() -> BoxedStrategy<I> {
         .boxed()
 }
 
+/// like arb_int(), but the i128 type also yields i128::MIN (used by C01, C08, C17,
+/// where the unchanged crate handles it; /, %, quantize with an i128::MIN integer
+/// operand negate it internally and are outside the claimed domain)
+pub fn arb_int_full() -> BoxedStrategy<I> {
+    (arb_int(), 0u8..16).prop_map(|(i, k)| if i.ty == 8 && k == 0 { I { ty: 8, v: i128::MIN } } else { i }).boxed()
+}
+
 pub fn big_pow10(k: u32) -> Big {
     Big::pow10(k)
 }
@@ -475,3 +483,54 @@ macro_rules! assign_forms {
     }};
 }
 
+
+/// A second operand related to `x`: the same value (same or another scale), its negation,
+/// a neighbour, a small multiple or power-of-ten multiple - operand pairs that uniformly
+/// random generation practically never produces.
+pub fn related_d(x: D, kind: u8, k: u8, d: i128) -> D {
+    match kind % 7 {
+        0 => x,
+        1 => D::new(-x.c, x.s),
+        2 => {
+            // same value, more fractional digits (if it fits)
+            let k = k % (19 - x.s);
+            match x.c.checked_mul(10i128.pow(k as u32)) {
+                Some(c) if c != i128::MIN => D::new(c, x.s + k),
+                _ => x,
+            }
+        }
+        3 => {
+            // same value, fewer digits while divisible
+            let (mut c, mut s, mut k) = (x.c, x.s, k);
+            while s > 0 && c % 10 == 0 && k > 0 {
+                c /= 10;
+                s -= 1;
+                k -= 1;
+            }
+            D::new(c, s)
+        }
+        4 => D::new(x.c.saturating_add(d).clamp(-MAXC, MAXC), x.s),
+        5 => {
+            // small multiple
+            let m = if d == 0 { 2 } else { d };
+            D::new(x.c.checked_mul(m).filter(|v| *v != i128::MIN).unwrap_or(x.c), x.s)
+        }
+        _ => {
+            // same digits, different scale (value differs by a power of ten)
+            D::new(x.c, k % 19)
+        }
+    }
+}
+
+pub fn arb_related_pair() -> BoxedStrategy<(D, D)> {
+    (arb_d(), 0u8..7, 0u8..=18, -3i128..=3, any::<bool>())
+        .prop_map(|(x, kind, k, d, swap)| {
+            let y = related_d(x, kind, k, d);
+            if swap {
+                (y, x)
+            } else {
+                (x, y)
+            }
+        })
+        .boxed()
+}
